@@ -233,7 +233,7 @@ Proof.
     exists m. split; [reflexivity|]. split; [|auto]. eapply GA_flag_step; eauto.
   - (* SSwap *)
     destruct (loop_ready sv && client sv) eqn:Hready; [|discriminate].
-    destruct (Z.eqb (size sv) 0).
+    destruct (is_nil (results sv)).
     + inversion Hstep; subst sv' vs; clear Hstep. cbn in Hap. inversion Hap; subst st' es0; clear Hap.
       exists m. split; [reflexivity|]. split; [|auto]. eapply GA_flag_step; eauto.
     + inversion Hstep; subst sv' vs; clear Hstep. cbn in Hap. inversion Hap; subst st' es0; clear Hap.
